@@ -286,10 +286,12 @@ def run(facts, chk, tier, only=None):
         eb = ExprBuilder(b)
         ent = [(bb, t) for bb, t in b.calls() if (t.callee.name or '').endswith('HashMap::entry')]
         bl = [(bb, t) for bb, t in b.calls() if (t.callee.name or '').endswith('bloom_add_and_check')]
-        if len(ent) != 1 or len(bl) != 2:
+        if not ent or not bl:
             raise AnchorLost('KmerFilter::filter: %d entry calls, %d bloom calls' % (len(ent), len(bl)))
-        ke = eb.operand(ent[0][1].args[1])
-        full = ke[0] == 'call' and ke[1].endswith('SplitKmer::get_hash')
+        # every count-table key (and, below, every bloom key) must be the full hash, however many sites there are
+        kes = [eb.operand(t.args[1]) for _, t in ent]
+        ke = kes[0]
+        full = all(x[0] == 'call' and x[1].endswith('SplitKmer::get_hash') for x in kes)
         kty = [f['ty'] for f in facts.adt(KF)['variants'][0]['fields'] if f['name'] == 'counts'][0]
         ty_ok = 'HashMap<u64,' in kty.replace(' ', '') or 'HashMap<u64, u16>' in kty
         blooms = [eb.operand(t.args[1]) for _, t in bl]
@@ -318,6 +320,10 @@ def run(facts, chk, tier, only=None):
         kn = [(bb, t) for bb, t in new.calls() if (t.callee.name or '') == KF + '::new']
         init = [(bb, t) for bb, t in new.calls() if (t.callee.name or '') == KF + '::init']
         afk = [(bb, t) for bb, t in new.calls() if (t.callee.name or '') == 'ska_dict::SkaDict::add_file_kmers']
+        # the rule knows the pinned layout (one KmerFilter::new, one init, two add_file_kmers calls in SkaDict::new, two filter sites in
+        # add_file_kmers); any other layout is "not recognised" (soft: C12.func / C12.cli decide these clauses functionally), not a violation
+        if len(kn) != 1 or len(init) != 1 or len(afk) != 2:
+            raise AnchorLost('SkaDict::new: %d KmerFilter::new, %d init, %d add_file_kmers calls (1 / 1 / 2 on the pinned tree)' % (len(kn), len(init), len(afk)))
         res.append(('one-filter', len(kn) == 1 and not new.in_cycle(kn[0][0]), '%d KmerFilter::new calls in SkaDict::new' % len(kn)))
         res.append(('two-files-share', len(afk) == 2 and all(show(eb.operand(t.args[0])) == show(eb.operand(afk[0][1].args[0])) for _, t in afk)
                     and all(show(eb.operand(t.args[2])) == show(eb.operand(afk[0][1].args[2])) for _, t in afk),
@@ -329,6 +335,8 @@ def run(facts, chk, tier, only=None):
             tr = [b.idx for b in new.blocks if b.idx in new.live_blocks() for s in b.stmts
                   if s.k == 'assign' and new.local_names.get(s.place.local) == 'is_reads' and s.rv.k == 'use'
                   and s.rv.ops[0].const_int() == 1]
+            if not tr:
+                raise AnchorLost('SkaDict::new: no `is_reads = true` assignment found')
             ok = bool(tr) and all(new.dominates(ib, x) for x in tr) and all(new.dominates(ib, a[0]) or True for a in afk)
             res.append(('init-before-use', ok, 'init() dominates `is_reads = true` (%s)' % tr))
         else:
@@ -337,6 +345,8 @@ def run(facts, chk, tier, only=None):
         afkb = facts.fn('ska_dict::SkaDict::add_file_kmers')
         eba = ExprBuilder(afkb)
         fc = [(bb, t) for bb, t in afkb.calls() if (t.callee.name or '') == KF + '::filter']
+        if len(fc) != 2:
+            raise AnchorLost('add_file_kmers: %d KmerFilter::filter call sites (first k-mer and loop on the pinned tree)' % len(fc))
         res.append(('filter-sites', len(fc) == 2, '%d filter call sites (first k-mer, loop)' % len(fc)))
         for bb, t in fc:
             # every path to the call passes the true edge of a switch on is_reads
